@@ -12,15 +12,16 @@ TECHNIQUE = ("Coq proof about a hand-written Gallina model of RealmBase::is_vali
              "(proved to return the count of smaller elements on sorted input); model tied to the real code by "
              "differential execution on the realms of the freshly generated schema")
 LEVEL_TEXT = ("Theorems c10_is_valid_set / c10_is_valid_range: the validity check is membership / range inclusion for every "
-              "sorted realm and every value; c10_idx_char characterises get_rlm_idx as lower_bound's index (count of smaller "
-              "members) with no equality test, c10_idx_refuted exhibits the defect (Side '0' gets the index and description of "
-              "'1'), c10_idx_partial / c10_oracle_*_partial prove index and printed description exact for members and for "
-              "values above every member; c10_idx_fixed_exact proves the repaired lookup exact.  Sortedness of every dumped "
-              "realm (the theorems' hypothesis) is evaluated on each run.")
+              "sorted realm and every value; c10_idx_exact / c10_idx_exists_iff_member / c10_desc_exact: get_rlm_idx (lower_bound "
+              "followed by an equality test) reports an index exactly for members, that member's own, and the printer shows "
+              "exactly that member's description; c10_field_is_valid: through the field object the WHOLE value is looked up; "
+              "c10_idx_orig_refuted keeps the witness against the routine before 63dae2a; c10_idx_range_refuted: range realms "
+              "still get index 0 for every value.  Sortedness of every dumped realm (the theorems' hypothesis) is evaluated "
+              "on each run.")
 LEVEL_NOTE = ("Trusted: Coq kernel, extraction, the hand transcription (checked by the correspondence run), the harness/driver "
               "glue (value encodings, reading the description back from the printed text), g++/libstdc++ behaving as the "
               "bisection model on the tested inputs, doubles compared through their order-preserving integer key (no NaN).")
-DESIGN_REF = "DESIGN.md section 4, C10; finding F17"
+DESIGN_REF = "DESIGN.md section 4, C10; finding F17 (fixed by 63dae2a)"
 PROPS_FILE = "Props/Properties_C10.v"
 COQ_TARGETS = ["Props/Properties_C10.vo", "Extract/Extract_C10.vo"]
 TRUSTED_BASE = ["Coq 8.16.1 kernel (coqc)", "Extraction with ExtrOcamlBasic, no Extract Constant; OCaml 4.13.1",
@@ -38,9 +39,13 @@ RULE = ("every field with a realm in the compiled UTEST schema (thorough: also F
         "run: char/Boolean realms x all 256 chars (exhaustive), int realms x a +-3 window around every member plus "
         "0, -1, INT_MIN, INT_MAX, string realms x all strings of length <= 2 (thorough: <= 3, capped) over the member alphabet "
         "plus one foreign letter and one-character mutations of the members; each through RealmBase::get_rlm_idx/is_valid "
-        "directly and through create_field + print_field/print; plus synthetic set and range realms (char, int, string, "
-        "double; sizes 0..40; a malformed unsorted stream) with probes at members +-1. Probes in the known-defect zone "
-        "(non-member below the maximum) are kept on separate lines. non-trivial = realm with >= 2 members and >= 2 probes; "
+        "directly and through the field object created by the metadata (create_field; the specialisation's own is_valid() / "
+        "get_rlm_idx() reached by dynamic_cast to the exact Field<T,tag>, the virtual get_rlm_idx(), print_field/print); string "
+        "probes include members followed by space / tab / comma / other separators and further text, member + member, members "
+        "containing spaces and their tokens; fields without a realm; synthetic realms also through typed Field<T,N>(value, &realm) "
+        "objects for int, char, string and double; plus synthetic set and range realms (char, int, string, "
+        "double; sizes 0..40; a malformed unsorted stream) with probes at members +-1. Probes that are non-members below the maximum (the "
+        "zone of the defect fixed by 63dae2a) are kept on separate lines. non-trivial = realm with >= 2 members and >= 2 probes; "
         "distinct = distinct case lines")
 
 _STATE = {}
@@ -133,19 +138,43 @@ def probes_for(realm, rng, tier):
             out += [bytes([a, b, c]) for a in alpha for b in alpha for c in alpha]
         else:
             out += [bytes(rng.choice(alpha) for _ in range(3)) for _ in range(cap)]
-        for m in mb:                      # near misses of each member
-            out.append(m)
-            out.append(m + bytes([foreign]))
-            out.append(m + m[-1:])
-            out.append(m[:-1])
+        prio = []
+        for m in mb:                      # near misses of each member (always sent through the field object too)
+            prio.append(m)
+            prio.append(m + bytes([foreign]))
+            prio.append(m + m[-1:])
+            prio.append(m[:-1])
+            prio.append(m[1:])
             for d in (-1, 1):
                 c = m[-1] + d
                 if 1 <= c <= 255:
-                    out.append(m[:-1] + bytes([c]))
-            out.append(m.lower())
-            out.append(m.upper())
-            out.append(bytes([foreign]) + m)
-        return [enc_s(b) for b in uniq(out) if 0 not in b and 0x20 not in b and 0x09 not in b and 0x0a not in b]
+                    prio.append(m[:-1] + bytes([c]))
+            prio.append(m.lower())
+            prio.append(m.upper())
+            prio.append(bytes([foreign]) + m)
+            # a member followed by a separator and more text: multi-value fields are space delimited, a lookup
+            # must still be about the WHOLE value
+            other = rng.choice(mb)
+            for sep in (b" ", b"\t", b",", b";", b"|", b"/", b"."):
+                prio.append(m + sep)
+                prio.append(m + sep + other)
+                prio.append(sep + m)
+            prio.append(m + b"  ")
+            prio.append(m + b" x")
+            prio.append(m + b" " + m)
+            # members that contain separators themselves ("ISO Country Code"): every token and token prefix
+            for sep in (b" ", b"_", b"-"):
+                if sep in m:
+                    parts = m.split(sep)
+                    for i in range(1, len(parts)):
+                        prio.append(sep.join(parts[:i]))
+                        prio.append(sep.join(parts[:i]) + sep)
+                        prio.append(sep.join(parts[i:]))
+                    prio.append(m.replace(sep, b""))
+                    prio.append(m.replace(sep, sep + sep))
+        prio = [b for b in uniq(prio) if 0 not in b]
+        realm["_prio"] = set(enc_s(b) for b in prio)
+        return [enc_s(b) for b in uniq(prio + out) if 0 not in b]
     return []
 
 
@@ -165,10 +194,17 @@ def realm_cases(op_suffix, realm, rng, tier):
             if ty == "i":
                 pr_clean = [p for p in clean if 0 <= int(p) <= 10**9]
                 pr_zone = [p for p in zone if 0 <= int(p) <= 10**9]
-            if ty == "s":      # the printer path costs a message per probe: sample
+            if ty == "s":      # the field path costs a message per probe: all near misses, a sample of the rest
                 lim = 2000 if tier == "thorough" else 150
-                pr_clean = clean if len(clean) <= lim else rng.sample(clean, lim)
-                pr_zone = zone if len(zone) <= lim else rng.sample(zone, lim)
+                prio = realm.get("_prio", set())
+
+                def pick(lst):
+                    must = [p for p in lst if p in prio]
+                    rest = [p for p in lst if p not in prio]
+                    return must + (rest if len(rest) <= lim else rng.sample(rest, lim))
+                pr_clean, pr_zone = pick(clean), pick(zone)
+            if realm["fnum"] >= 1024:      # the harness's per-tag class table ends there
+                pr_clean, pr_zone = [], []
             if ty == "b":      # every char maps to Y or N: members only
                 pr_clean, pr_zone = probes, []
         for part, cls in ((pr_clean, "clean"), (pr_zone, "defect-zone")):
@@ -258,13 +294,33 @@ def synthetic_cases(rng, tier):
     return cs
 
 
+NOREALM_FIELDS = ((1, "s"), (11, "s"), (58, "s"), (34, "i"), (9, "i"), (206, "c"))   # Account ClOrdID Text MsgSeqNum BodyLength OptAttribute
+
+
+def norealm_cases(sfx, rng):
+    """fields without a realm: always valid, no index, printed bare"""
+    cs = []
+    for fnum, ty in NOREALM_FIELDS:
+        if ty == "s":
+            pr = [enc_s(b) for b in (b"", b"A", b"1", b"1 2", b"C ", b" ", b"ISO Country Code", b"abc,def")]
+            pr += [enc_s(bytes(rng.choice(b"ABCab01 ~,") for _ in range(rng.randrange(1, 6)))) for _ in range(6)]
+        elif ty == "i":
+            pr = [str(v) for v in (0, 1, 2, 7, 99, 1000000000, rng.randrange(0, 10**6))]
+        else:
+            pr = [str(c) for c in (0, 32, 48, 49, 65, 89, 127, -1, -128, rng.randrange(-128, 128))]
+        cs.append(Case("P%s %d %s" % (sfx, fnum, " ".join(uniq(pr))), "printer-norealm-%s" % ty))
+    return cs
+
+
 def gen_cases(rng, tier):
     cs = []
     _STATE["realms"] = _dump("")
+    cs += norealm_cases("", rng)
     for r in _STATE["realms"]:
         cs += realm_cases("", r, rng, tier)
     if _STATE.get("both"):
         _STATE["realms44"] = _dump("4")
+        cs += norealm_cases("4", rng)
         for r in _STATE["realms44"]:
             cs += realm_cases("4", r, rng, tier)
     cs += synthetic_cases(rng, tier)
@@ -302,17 +358,23 @@ def _failing(case, impl):
             parts = r.split(":")
             idx = int(parts[0])
             exp_idx = mk.index(k) if k in mk else -1
+
+            def vok(flag):
+                if kind == "n":
+                    return flag == "1"
+                if kind == "s":
+                    return (flag == "1") == (k in mk)
+                return (flag == "1") == (len(mk) >= 2 and mk[0] <= k <= mk[1])
             if op == "P":
-                valid_ok = True
-            elif kind == "s":
-                valid_ok = (parts[1] == "1") == (k in mk)
+                valid_ok = parts[1] == "-" or vok(parts[1])
+            elif op == "S":
+                # realm level, field level (same answers), and the field without a realm (no index, valid)
+                valid_ok = (vok(parts[1]) and vok(parts[3]) and parts[2] == parts[0]
+                            and parts[4] == "-1" and parts[5] == "1")
             else:
-                valid_ok = (parts[1] == "1") == (len(mk) >= 2 and mk[0] <= k <= mk[1])
+                valid_ok = vok(parts[1])
             if idx != exp_idx or not valid_ok:
                 out.append((k, mk, idx, valid_ok, kind))
-            elif op == "P":
-                # description shown must be that of the value
-                pass
         return out
     except Exception:
         return None
